@@ -35,10 +35,15 @@ func RandomProfile(r *vlib.Rng) Profile {
 	p.Tall = r.Chance(1, 8)
 	p.Rules = r.Chance(2, 3)
 	p.Exotic = p.Rules && r.Chance(1, 3)
-	p.Decor = r.Chance(1, 3)
+	p.Decor = r.Chance(2, 5)
 	if p.Decor {
 		p.Spacing = true
-		p.MaxUnits = r.Range(8, 30)
+		p.MaxUnits = r.Range(12, 36)
+		// the page height is aimed at a block end: keep most documents free of what moves it
+		// (other page sizes on the first page, orphans / widows that forbid the break)
+		p.Rules = r.Chance(1, 3)
+		p.Exotic = p.Rules && r.Chance(1, 3)
+		p.OW = r.Chance(1, 4)
 	}
 	return p
 }
@@ -189,7 +194,7 @@ func (g *gen) decorate(n *Node) {
 	if r.Chance(3, 5) {
 		n.Pb = vlib.Pick(r, []int{5, 10, 15, 20, 30})
 	}
-	if r.Chance(1, 2) {
+	if r.Chance(2, 3) {
 		n.Bt = vlib.Pick(r, []int{0, 0, 3, 5, 10, 20, 30})
 		n.Bbw = vlib.Pick(r, []int{0, 2, 5, 10, 20, 30})
 	}
@@ -212,9 +217,9 @@ func (g *gen) leaf() *Node {
 	r := g.r
 	if r.Chance(2, 3) {
 		n := &Node{Kind: KPara, N: r.Range(1, 8), Lh: vlib.Pick(r, []int{20, 20, 20, 25, 30}), Orphans: 1, Widow: 1}
-		if r.Chance(1, 6) {
+		if r.Chance(1, 6) && !g.p.Decor {
 			n.N = r.Range(8, 14)
-		} else if g.p.Decor && r.Chance(2, 3) {
+		} else if g.p.Decor && r.Chance(3, 4) {
 			n.N = r.Range(1, 3) // small blocks: many block ends per page
 		}
 		if g.p.OW {
@@ -371,10 +376,64 @@ func Generate(r *vlib.Rng, p Profile) *Doc {
 		}
 		g.tags["page-rules"] = true
 	}
-	for len(d.Flow) == 0 || (g.units < p.MaxUnits && r.Chance(4, 5)) {
+	cont := 5
+	if p.Decor {
+		cont = 12
+	}
+	for len(d.Flow) == 0 || (g.units < p.MaxUnits && r.Chance(cont-1, cont)) {
 		d.Flow = append(d.Flow, g.node(0))
 	}
 	d.Number()
+	if p.Decor && r.Chance(4, 5) {
+		if hc := g.aimHeight(d); hc > 0 {
+			g.hc = hc
+			base := &d.Rules[0].Decls[0]
+			base.H = float64(hc + mt + mb)
+			g.tags["aimed"] = true
+		}
+	}
 	g.tags[fmt.Sprintf("hc=%d", g.hc)] = true
 	return d
+}
+
+// aimHeight chooses the height of the page content box so that, on the first page, the
+// content of some block with bottom padding / border (not the first box of the page) ends
+// at most its decoration above the page bottom or a few pixels around that window: the
+// block's content fits, its bottom decoration does or does not.  Positions are the plain sums
+// of heights (margins counted in full: exact when no margins collapse), so the aim is
+// approximate; 0 when the flow has no such block.
+func (g *gen) aimHeight(d *Doc) int {
+	type cand struct{ end, win int }
+	var cands []cand
+	y := 0
+	var walk func(n *Node, first bool)
+	walk = func(n *Node, first bool) {
+		switch n.Kind {
+		case KBlk:
+			y += n.Mt + n.Pt + n.Bt
+			for i, k := range n.Kids {
+				walk(k, first && i == 0)
+			}
+			if w := n.Pb + n.Bbw; w > 0 && !first && y >= 60 && y <= 420 {
+				cands = append(cands, cand{y, w})
+			}
+			y += n.Pb + n.Bbw + n.Mb
+		case KPara:
+			y += n.N * n.Lh
+		case KMono:
+			y += n.H
+		}
+	}
+	for i, n := range d.Flow {
+		walk(n, i == 0)
+	}
+	if len(cands) == 0 {
+		return 0
+	}
+	c := cands[g.r.Intn(len(cands))]
+	hc := c.end + g.r.Range(-4, c.win+4)
+	if hc < 40 {
+		hc = 40
+	}
+	return hc
 }
